@@ -24,3 +24,14 @@ Theorem C14_all_code_data_is_the_walk : forall c code d fuel,
              Forall2 (fun x k => to_code_data c k = OK x) ds (walk_codes (PCode code)).
 Proof. exact C14_all. Qed.
 Print Assumptions C14_all_code_data_is_the_walk.
+
+(* Tie to the current source by proof: Gen/SrcIter.v is re-translated on every run from blocks_to_constants (_blocks.py: the
+   docstring slot, the two loops that send every Constant operand - of the instructions, then of the additional args - through
+   from_arg, to_tuple), CodeData.__iter__ (the code entries of that table) and CodeData.all_code_data (self, then each nested one
+   recursively); they are the model's functions, so the two theorems above are about what the iteration API does now. *)
+From PCD Require Gen.SrcIter Proofs.SrcIterTie.
+Theorem C14_iteration_is_the_source :
+  (forall d, PCD.Gen.SrcIter.iter_code_data d = iter_code_data d) /\
+  (forall fuel d, PCD.Gen.SrcIter.all_code_data fuel d = all_code_data fuel d).
+Proof. split; [exact SrcIterTie.iter_code_data_tie | exact SrcIterTie.all_code_data_tie]. Qed.
+Print Assumptions C14_iteration_is_the_source.
